@@ -184,6 +184,56 @@ theorem onSite_imp_onSiteTol (fl : K → Int) (hfl : ∀ x, fl x = ⌊x⌋) (b :
     simp [V3.normSq, V3.dot, M3.vecMul]
   rw [this]; exact h0
 
+theorem normSq_le_zero (v : V3 K) (h : V3.normSq v ≤ 0) : v = ⟨0, 0, 0⟩ := by
+  obtain ⟨x, y, z⟩ := v
+  simp only [V3.normSq, V3.dot] at h
+  have hx : x = 0 := by nlinarith [mul_self_nonneg x, mul_self_nonneg y, mul_self_nonneg z]
+  have hy : y = 0 := by nlinarith [mul_self_nonneg x, mul_self_nonneg y, mul_self_nonneg z]
+  have hz : z = 0 := by nlinarith [mul_self_nonneg x, mul_self_nonneg y, mul_self_nonneg z]
+  rw [hx, hy, hz]
+
+/-- with tolerance 0 the test is the exact one: the atom is on a periodic image of the site. -/
+theorem onSiteTol_zero (fl : K → Int) (hfl : ∀ x, fl x = ⌊x⌋) (b : Box K) (hV : M3.det b.vects ≠ 0) (site : V3 K)
+    (a : Atom K) : onSiteTol fl b 0 site a = onSite fl b site a := by
+  rw [Bool.eq_iff_iff]
+  constructor
+  · intro h
+    unfold onSiteTol at h
+    simp only [decide_eq_true_eq] at h
+    have h0 := normSq_le_zero _ h
+    have hd := vecMul_inv_cancel b.vects hV
+      (⟨(b.cartToRel a.pos - site).x - ((nearK fl (b.cartToRel a.pos - site).x : Int) : K),
+        (b.cartToRel a.pos - site).y - ((nearK fl (b.cartToRel a.pos - site).y : Int) : K),
+        (b.cartToRel a.pos - site).z - ((nearK fl (b.cartToRel a.pos - site).z : Int) : K)⟩ : V3 K)
+    rw [h0] at hd
+    have z0 : M3.vecMul (⟨0, 0, 0⟩ : V3 K) (M3.inv b.vects) = ⟨0, 0, 0⟩ := by
+      ext <;> simp [M3.vecMul]
+    rw [z0] at hd
+    have hx := congrArg V3.x hd
+    have hy := congrArg V3.y hd
+    have hz := congrArg V3.z hd
+    simp only at hx hy hz
+    unfold onSite
+    simp only [Bool.and_eq_true]
+    refine ⟨⟨(isIntK_iff fl hfl _).mpr ⟨nearK fl (b.cartToRel a.pos - site).x, by linarith⟩,
+      (isIntK_iff fl hfl _).mpr ⟨nearK fl (b.cartToRel a.pos - site).y, by linarith⟩⟩,
+      (isIntK_iff fl hfl _).mpr ⟨nearK fl (b.cartToRel a.pos - site).z, by linarith⟩⟩
+  · exact onSite_imp_onSiteTol fl hfl b 0 le_rfl site a
+
+/-- the test of round 2 (`checkBasis`: exact, periodic, no family test) is the instance `atol = 0`,
+    `check_family=False` of the test with the caller's arguments: what was proved about it (`checkBasis_periodic`,
+    `checkBasis_refuses_mixed`) is about this function. -/
+theorem checkSettingBasis_zero (fl : K → Int) (hfl : ∀ x, fl x = ⌊x⌋) (fam : Option Family) (b : Box K)
+    (hV : M3.det b.vects ≠ 0) (setting : String) (atoms : List (Atom K)) :
+    checkSettingBasis fl fam b 0 false setting atoms = checkBasis fl b setting atoms := by
+  have hf : onSiteTol fl b 0 = onSite fl b := by
+    funext site a
+    exact onSiteTol_zero fl hfl b hV site a
+  unfold checkSettingBasis checkBasis
+  cases settingSites (K := K) setting with
+  | none => rfl
+  | some sites => simp [hf, checkSites_eq_by]
+
 /-- a looser tolerance accepts whatever a tighter one accepts. -/
 theorem onSiteTol_mono (fl : K → Int) (b : Box K) (t t' : K) (htt : t ≤ t') (site : V3 K) (a : Atom K)
     (h : onSiteTol fl b t site a = true) : onSiteTol fl b t' site a = true := by
